@@ -635,7 +635,11 @@ where
         // All limbs will be bounded by 2^LOG2_BASE except possibly the most significant
         // one, which will be restricted further if LOG2_BASE does not divide nb_bits.
         let mut limb_size_bounds = vec![LOG2_BASE; nb_limbs];
-        *limb_size_bounds.last_mut().unwrap() = (nb_bits - 1).rem(LOG2_BASE) + 1; // msl bound
+        // msl bound (an integer of 0 bits is zero)
+        *limb_size_bounds.last_mut().unwrap() = match nb_bits {
+            0 => 0,
+            _ => (nb_bits - 1).rem(LOG2_BASE) + 1,
+        };
 
         let limbs = value
             .map(|x| big_to_limbs(nb_limbs as u32, &(BigUint::one() << LOG2_BASE), &x))
